@@ -72,13 +72,13 @@ Definition present (tokens : list issued_token) (idx mutation arg : Z) : bool * 
       let genuine := if key_id it =? 0 then Some (tok it) else None in
       match mutation with
       | 0 => (false, genuine)
-      | 1 => (false, None)
+      | 1 => if arg <? 8 * tok_len it then (false, None) else (false, genuine)
       | 2 => if tok_len it <=? arg then (false, genuine) else (arg =? 0, None)
       | 3 => (false, None)
       | 4 =>
           match nth_error tokens (Z.to_nat arg) with
           | Some other => if nonce (tok other) =? nonce (tok it) then (false, genuine) else (false, None)
-          | None => (false, None)
+          | None => (false, genuine)
           end
       | 5 => (arg <=? 0, None)
       | _ => (false, genuine)
@@ -123,7 +123,7 @@ Fixpoint run_from (s : t) (i : ops) : outs :=
 Definition run (i : ops) : outs :=
   match i with
   | [0; rl; vl] :: i' => [0] :: run_from (mk (mkCfg rl vl (2 ^ 19)) [] BloomLog.init) i'
-  | _ => map (fun _ => [-1]) i
+  | _ => run_from (mk (mkCfg 0 0 (2 ^ 19)) [] BloomLog.init) i   (* as if op 0 were [0; 0; 0] *)
   end.
 
 (** Oracle on the implementation's outputs (ops and outputs only): an outcome with
@@ -178,6 +178,7 @@ Fixpoint oracle_from (c : config) (toks : list issued_token) (used : list (Z * Z
 
 Definition oracle (i : ops) (o : outs) : bool :=
   match i, o with
+  | _, [[-999]] => false
   | [0; rl; vl] :: i', _ :: o' => oracle_from (mkCfg rl vl (2 ^ 19)) [] [] i' o'
-  | _, _ => true
+  | _, _ => oracle_from (mkCfg 0 0 (2 ^ 19)) [] [] i o
   end.
